@@ -179,6 +179,29 @@ func dStrs(ss []string) string {
 }
 
 // wrap the value of one schema entry into a whole configuration document
+// dDocInst: like dDoc, but the component instance is called [id] ("type" or "type/name") and the
+// section also holds the sibling instances [sib] (id -> body) of the same kind
+func dDocInst(e sEntry, id string, val any, sib map[string]any) any {
+	switch e.Kind {
+	case "top", "service":
+		return dDoc(e, val)
+	}
+	sec := map[string]any{id: val}
+	for k, v := range sib {
+		sec[k] = v
+	}
+	return map[string]any{e.Kind: sec}
+}
+
+// dInstIDs picks the id of the instance under test and of one sibling of the same type: unnamed
+// vs named, or two different names
+func dInstIDs(r *vRand, typ string) (string, string) {
+	names := []string{typ, typ + "/n1", typ + "/second", typ + "/" + typ}
+	a := r.Intn(len(names))
+	b := (a + 1 + r.Intn(len(names)-1)) % len(names)
+	return names[a], names[b]
+}
+
 func dDoc(e sEntry, val any) any {
 	switch e.Kind {
 	case "top":
@@ -261,9 +284,27 @@ func TestVerifC13Decode(t *testing.T) {
 	for _, ep := range all {
 		for _, pt := range ep.pts {
 			val := dBuild(pt.steps, map[string]any{unk: 1})
-			doc := dDoc(ep.e, val)
+			// the instance under test is unnamed or named and has a sibling instance of the same type
+			// with a valid (empty) body: the unknown key must be charged to the right instance
+			inst, sibID := "", ""
+			var doc any
+			if ep.e.Def != nil {
+				inst, sibID = dInstIDs(r, ep.e.Type)
+				doc = dDocInst(ep.e, inst, val, map[string]any{sibID: map[string]any{}})
+				out.Stat("decode.single.instance."+map[bool]string{true: "named", false: "unnamed"}[strings.Contains(inst, "/")], 1)
+			} else {
+				doc = dDoc(ep.e, val)
+			}
 			_, err := dLoad(doc)
 			js, _ := json.Marshal(doc)
+			if err != nil && inst != "" && !strings.HasPrefix(err.Error(), "PANIC") {
+				if !strings.Contains(err.Error(), "for "+strconv.Quote(inst)+":") {
+					out.Oracle("unknown-key-wrong-instance", "(CDec true "+vStr(ep.e.Name)+" ("+dCv(val)+") [])", "the error does not name the instance "+inst+": "+string(js)+" => "+err.Error())
+				}
+				if strings.Contains(err.Error(), "for "+strconv.Quote(sibID)+":") {
+					out.Oracle("unknown-key-wrong-instance", "(CDec true "+vStr(ep.e.Name)+" ("+dCv(val)+") [])", "the sibling instance "+sibID+" is blamed: "+string(js)+" => "+err.Error())
+				}
+			}
 			term := "(CDec true " + vStr(ep.e.Name) + " (" + dCv(val) + ") "
 			if err == nil {
 				out.Oracle("unknown-key-accepted", term+"[])", "loaded although an unknown key was written: "+string(js))
